@@ -243,7 +243,13 @@ def gen_response(rng, tag: bytes, req_method: str, hostile_p=0.5, allow_extra_af
     feats = set()
     hostile = rng.random() < hostile_p
     status = rng.choice([200, 200, 200, 201, 204, 304, 404, 500, 301])
-    reason = {200: b"OK", 201: b"Created", 204: b"No Content", 304: b"Not Modified", 404: b"Not Found", 500: b"ISE", 301: b"Moved"}[status]
+    if rng.random() < 0.25:
+        # every final status other than 204/304 is framed like a 200 (RFC 9112 6.3): sample the whole range, the
+        # "looks bodyless" ones (205 Reset Content, 202, 3xx) more often
+        status = rng.choice([205, 205, 202, 203, 206, 207, 226, 299, 300, 302, 303, 305, 307, 308, 400, 401, 403, 405, 409, 410,
+                             412, 416, 418, 429, 451, 499, 501, 502, 503, 504, 511, 599])
+        feats.add("resp-status-%dxx" % (status // 100) if status != 205 else "resp-status-205")
+    reason = {200: b"OK", 201: b"Created", 204: b"No Content", 205: b"Reset Content", 304: b"Not Modified", 404: b"Not Found", 500: b"ISE", 301: b"Moved"}.get(status, b"Status")
     version = b"HTTP/1.1"
     body = b"r:" + tag + b":" + bytes(rng.choice(b"klmnop789") for _ in range(rng.randint(0, 40)))
     if rng.random() < 0.15:
